@@ -7,6 +7,7 @@ import (
 	"os"
 	"path/filepath"
 	"sync"
+	"sync/atomic"
 	"testing"
 	"time"
 
@@ -372,6 +373,93 @@ func TestOrderDependentPrograms(t *testing.T) {
 
 // TestNilReceiverSignal: a host may pass a typed nil pointer whose ExitSignal method works on a nil receiver (the
 // repository's own signal test uses that shape): it is a signal like any other and must be polled.
+// richSig is a host signal that is more than a signal: it also has the methods of a context (its Done channel is never
+// closed: this host stops runs through ExitSignal alone), a Stringer, a closer. The interpreters are given a Signal and
+// use it as one.
+type richSig struct {
+	n, fireAt int64
+	ch        chan struct{}
+}
+
+func (s *richSig) ExitSignal() bool            { return atomic.AddInt64(&s.n, 1) >= s.fireAt }
+func (s *richSig) Done() <-chan struct{}       { return s.ch }
+func (s *richSig) Err() error                  { return nil }
+func (s *richSig) Deadline() (time.Time, bool) { return time.Time{}, false }
+func (s *richSig) Value(any) any               { return nil }
+func (s *richSig) String() string              { return "rich signal" }
+func (s *richSig) Close() error                { return nil }
+func (s *richSig) Stop()                       {}
+func (s *richSig) Cancel()                     {}
+func (s *richSig) Wait()                       {}
+
+func TestSignalWithOtherMethods(t *testing.T) {
+	inc := func(n string) *gen.Node { return gen.NSet(n, gen.NBin("+", id(n), gen.NInt(1))) }
+	progs := map[string]map[string][]*gen.Node{
+		"counting":   {"main.p": {gen.NSet("n", gen.NInt(0)), gen.NFor(nil, nil, nil, []*gen.Node{inc("n"), gen.NCall("probe", gen.NStr("it"), id("n"))})}},
+		"empty-body": {"main.p": {gen.NFor(nil, nil, nil, nil)}},
+		"for-in":     {"main.p": {gen.NFor(nil, nil, nil, []*gen.Node{gen.NForIn("e", gen.NList(gen.NInt(1), gen.NInt(2)), []*gen.Node{gen.NCall("probe", gen.NStr("e"), id("e"))})})}},
+		"only-ifs":   {"main.p": {gen.NSet("halt", gen.NBool(false)), gen.NFor(nil, nil, nil, []*gen.Node{gen.NIf([]*gen.Node{id("halt")}, [][]*gen.Node{{gen.NBreak()}}, nil, false), gen.NIf([]*gen.Node{gen.NBool(true)}, [][]*gen.Node{{}}, nil, false)})}},
+		"in-callee":  {"main.p": {gen.NCall("use", gen.NStr("s1.p")), gen.NCall("probe", gen.NStr("after"))}, "s1.p": {gen.NFor(nil, nil, nil, []*gen.Node{gen.NCall("probe", gen.NStr("callee"))})}},
+	}
+	n := 0
+	for name, scripts := range progs {
+		for _, v2 := range []bool{false, true} {
+			if v2 && len(scripts) > 1 {
+				continue
+			}
+			c := &sem.Case{Scripts: map[string][]*gen.Node{}, Root: "main.p", Meas: "m", V2: v2}
+			for k, sc := range scripts {
+				c.Scripts[k] = gen.FixAll(gen.CloneProg(sc))
+			}
+			c.Print(nil)
+			who := map[bool]string{false: "v1", true: "v2"}[v2]
+			slot := "richsig-" + name + "-" + who
+			for _, k := range []int64{1, 3, 50, 5000} {
+				sig := &richSig{fireAt: k, ch: make(chan struct{})}
+				rp := replay{c.Replay("the signal's type also has Done / Err / Deadline / Value / String / Close methods; only ExitSignal says when to stop"), int(k)}
+				done := make(chan string, 1)
+				evid.Watch(slot, "run with a signal that has other methods as well", rp)
+				go func() {
+					defer func() {
+						if r := recover(); r != nil {
+							done <- fmt.Sprint("panic: ", r)
+						}
+					}()
+					if v2 {
+						s, err, crash := impl.LoadV2("main.p", c.Texts["main.p"], sem.V2Fns())
+						if err != nil || crash != nil {
+							done <- fmt.Sprint("load: ", err, crash)
+							return
+						}
+						rerr, crash := impl.RunV2(s, sig)
+						done <- fmt.Sprint(rerr == nil && crash == nil)
+						return
+					}
+					call, check := sem.V1Tables()
+					ok, errs, crash := impl.LoadV1(c.Texts, call, check)
+					if len(errs) > 0 || crash != nil {
+						done <- fmt.Sprint("load: ", errs, crash)
+						return
+					}
+					rerr, crash := impl.RunV1(ok["main.p"], impl.NewPoint("m", nil, map[string]any{}), sig)
+					done <- fmt.Sprint(rerr == nil && crash == nil)
+				}()
+				res := <-done
+				evid.Unwatch()
+				if res != "true" {
+					rk.Fail(t, slot, rp, "%s: run with the signal firing at poll %d: %s", who, k, res)
+				}
+				if polls := atomic.LoadInt64(&sig.n); polls < k {
+					rk.Fail(t, slot, rp, "%s: the run returned after %d polls although the signal fires at poll %d (non-terminating program)", who, polls, k)
+				}
+				evid.Case(fmt.Sprintf("%s/%d", slot, k), true, "signal-with-other-methods/"+who)
+				n++
+			}
+		}
+	}
+	evid.Exhaustive("non-terminating program x interpreter x poll at which a signal with a larger method set fires", n)
+}
+
 func TestNilReceiverSignal(t *testing.T) {
 	inc := func(n string) *gen.Node { return gen.NSet(n, gen.NBin("+", id(n), gen.NInt(1))) }
 	progs := map[string]map[string][]*gen.Node{
